@@ -25,6 +25,14 @@ def bounded(rep, tier):
     else:
         rep.add(Result("C06.inherit-grid", BOUNDED_OK, klass="B", backend="native-model", function="mako.runtime / mako.codegen (inheritance)", bound=bound, evaluations=ns * 12,
                        time_s=time.time() - t0, detail="every chain renders what the statement's model prescribes"))
+    t15 = time.time()
+    n3, bad3 = G.include_cases()
+    if bad3:
+        rep.add(Result("C06.include-from-inheriting", VIOLATED, klass="B", backend="native-model", function="mako.runtime:_include_file", bound="included chain of length 1 and 2 x colliding / distinct block name", evaluations=n3,
+                       detail=str(bad3[0])[:250], witness=bad3[0], replayed=True, replay={"failures": bad3}, time_s=time.time() - t15))
+    else:
+        rep.add(Result("C06.include-from-inheriting", BOUNDED_OK, klass="B", backend="native-model", function="mako.runtime:_include_file", bound="included chain of length 1 and 2 x colliding / distinct block name", evaluations=n3,
+                       time_s=time.time() - t15, detail="an included template is a chain of its own: its named blocks render at their position"))
     t1 = time.time()
     n, bad = G.compile_rejections()
     if bad:
